@@ -6,6 +6,7 @@
   the models of C02 / C04 / C05 / C06 / C07 / C09 / C10 take from the source.
 -/
 import InjModel.Generated.Fns
+import InjModel.Generated.Layout
 import InjModel.Lemmas.Rt
 import InjModel.Tie.SigText
 open Inj Inj.Rt Inj.Sig
@@ -311,6 +312,65 @@ theorem T_if_when_called (mode : Mode) (g v : List Unit) (func : Nat × List Cha
 
 theorem T_if_unchecked_bool_refused : returnsBoolText [] = false := rfl
 
+/-! ## the two readers agree: each structural fact `translate/layout.py` reads off the text (regular expressions;
+     `Generated.Layout`) equals the same fact computed by *running* the translated function -/
+
+def lib0 : Lib := ([], [], ())
+def os1 (a : List Val) : Os := { answers := a, log := [] }
+def names (r : Res Unit × Os) : List String := r.2.log.map (·.1)
+def isPanic {α : Type} (r : Res α × Os) : Bool := match r.1 with | Res.panic _ => true | Res.ok _ => false
+def idxOf (l : List String) (x : String) : Nat := (l.findIdx? (· == x)).getD l.length
+
+/-- refused with nothing done, on two texts that differ -/
+def skelRawGate : Bool :=
+  let r := run (GenIf.WhenCalledBuilder_will_execute_raw Mode.debug lib0 1 ['a'] (2, ['b'])) (os1 [])
+  isPanic r && (names r).isEmpty
+def skelAsyncGate : Bool :=
+  let r := run (GenIf.WhenCalledBuilderAsync_will_return_async Mode.debug lib0 1 ['a'] (2, ['b'])) (os1 [])
+  isPanic r && (names r).isEmpty
+def skelBoolGate : Bool :=
+  let r := run (GenIf.WhenCalledBuilder_will_return_boolean Mode.debug lib0 1 ['f', 'n', '(', ')'] true) (os1 [])
+  isPanic r && (names r).isEmpty
+/-- on a refused `will_execute` the verifier is already registered -/
+def skelVerifierFirst : Bool :=
+  let r := run (GenIf.WhenCalledBuilder_will_execute Mode.debug lib0 1 ['a'] ((2, ['b']), ())) (os1 [Val.n 1])
+  isPanic r && (names r).contains "self.lib.verifiers.push"
+/-- on an accepted `will_execute` of a counting fake the counter is reset before the back end is called -/
+def skelResetFirst : Bool :=
+  let r := run (GenIf.WhenCalledBuilder_will_execute Mode.debug lib0 1 ['a'] ((2, ['a']), ())) (os1 [Val.n 1])
+  !isPanic r && idxOf (names r) "counter.store" < idxOf (names r) "replace_function_with_other_function"
+def skelUncheckedEmpty : Bool :=
+  match GenIf.InjectorPP_when_called_unchecked Mode.debug [] [] () (1, ['x']) with
+  | Res.ok b => b.2.2.isEmpty
+  | Res.panic _ => false
+def skelNullRefused : Bool :=
+  match GenIf.FuncPtr_new Mode.debug 0 ['x'] with | Res.panic _ => true | Res.ok _ => false
+def skelSameLock : Bool :=
+  let a := run (GenIf.InjectorPP_new Mode.debug) (os1 [Val.n 1])
+  let b := run (GenIf.InjectorPP_prevent Mode.debug) (os1 [Val.n 1])
+  a.2.log == b.2.log && (a.2.log.map (·.1)).contains "self.inner.lock" && (a.2.log.map (·.1)).contains "static LOCK_FUNCTION"
+def skelPoisonRecovered : Bool :=
+  let a := run (GenIf.InjectorPP_new Mode.debug) (os1 [Val.n 0])
+  !isPanic a && (a.2.log.map (·.1)).contains "poisoned.into_inner"
+def skelVerifierPanicking : Bool :=
+  !isPanic (run (GenIf.CallCountVerifier_Drop_drop Mode.debug) (os1 [Val.n 1, Val.n 1, Val.n 2, Val.n 1])) &&
+  isPanic (run (GenIf.CallCountVerifier_Drop_drop Mode.debug) (os1 [Val.n 1, Val.n 1, Val.n 2, Val.n 0])) &&
+  !isPanic (run (GenIf.CallCountVerifier_Drop_drop Mode.debug) (os1 [Val.n 1, Val.n 2, Val.n 2, Val.n 0]))
+/-- the injector's own `drop` touches the guards only, one pop / one drop at a time -/
+def skelDropGuardsOnly : Bool :=
+  names (run (GenIf.InjectorPP_Drop_drop Mode.debug 8 [] [] ()) (os1 [Val.n 1, Val.n 1, Val.n 0])) ==
+    ["self.guards.pop", "drop", "self.guards.pop", "drop", "self.guards.pop"]
+
+open Generated.Layout in
+theorem T_layout_agrees :
+    rawGateBeforeGuard = skelRawGate ∧ asyncGateBeforeGuard = skelAsyncGate ∧ boolGateBeforeGuard = skelBoolGate ∧
+    verifierPushedBeforeGate = skelVerifierFirst ∧ counterResetOnInstall = skelResetFirst ∧
+    uncheckedCarriesEmptySig = skelUncheckedEmpty ∧ funcPtrRejectsNull = skelNullRefused ∧
+    (newTakesLock && preventTakesLock && sameLockStatic) = skelSameLock ∧ poisonRecovered = skelPoisonRecovered ∧
+    verifierChecksPanicking = skelVerifierPanicking ∧
+    (injectorHasDropImpl && decide (injectorDropBody = [Field.guards]) && decide (guardDropOrder = DropOrderSrc.explicitNewestFirst)) = skelDropGuardsOnly := by
+  refine ⟨?_, ?_, ?_, ?_, ?_, ?_, ?_, ?_, ?_, ?_, ?_⟩ <;> rfl
+
 end Inj.Tie
 
 #print axioms Inj.Tie.T_if_will_execute_raw
@@ -329,3 +389,4 @@ end Inj.Tie
 #print axioms Inj.Tie.T_if_when_called
 #print axioms Inj.Tie.T_if_unchecked_bool_refused
 #print axioms Inj.Tie.T_if_execute_guard
+#print axioms Inj.Tie.T_layout_agrees
